@@ -214,7 +214,9 @@ impl Check for C05 {
                     fail!("io-error-swallowed", "source error #{} ({}) at read call {} was not reported before next() made the iterator read again (event {}: {})\n trace: {}", token, want_kind, r, e, tr.evs[e].short(), tr.short(40));
                 }
                 match &tr.evs[e] {
-                    Ev::Err(ErrV::Read { kind, token: t }) | Ev::RecoverErr(ErrV::Read { kind, token: t }) if t == token => {
+                    // (the error is recognised by the token in its payload, or - should an implementation wrap it and lose
+                    // the payload text - by its kind)
+                    Ev::Err(ErrV::Read { kind, token: t }) | Ev::RecoverErr(ErrV::Read { kind, token: t }) if t == token || (*t == 0 && *kind == want_kind) => {
                         if *kind != want_kind {
                             fail!("io-error-kind", "source error #{} had kind {} but was reported as {}", token, want_kind, kind);
                         }
@@ -250,9 +252,10 @@ impl Check for C05 {
             }
         }
         // a ReadError that is not ours must not appear at all
+        let injected_kinds: Vec<String> = tr.reads.iter().filter_map(|l| if let ROut::Hard(k, _) = &l.out { if *k == 255 { None } else { Some(format!("{:?}", io::FAULT_KINDS[*k as usize % io::FAULT_KINDS.len()])) } } else { None }).collect();
         for e in &tr.evs {
             if let Ev::Err(ErrV::Read { token: 0, kind }) | Ev::RecoverErr(ErrV::Read { token: 0, kind }) = e {
-                if kind != "Interrupted" {
+                if kind != "Interrupted" && !injected_kinds.contains(kind) {
                     fail!("io-error-invented", "a ReadError of kind {} appeared that the source never produced", kind);
                 }
             }
